@@ -126,6 +126,44 @@ impl Type {
         }
     }
 
+    /// Text of the type that does not depend on the iteration order of union members and
+    /// struct fields (used where one member of a union has to be chosen reproducibly)
+    pub(crate) fn sort_key(&self) -> String {
+        match self {
+            Type::Function(function) => format!(
+                "({})->{}",
+                function
+                    .params
+                    .iter()
+                    .map(Type::sort_key)
+                    .collect::<Box<[_]>>()
+                    .join(","),
+                function.return_type.sort_key()
+            ),
+            Type::Array(element) => format!("[{}]", element.sort_key()),
+            Type::Tuple(types) => format!(
+                "({})",
+                types.iter().map(Type::sort_key).collect::<Box<[_]>>().join(",")
+            ),
+            Type::Multi(multi) => {
+                let mut keys: Box<[String]> = multi.iter().map(Type::sort_key).collect();
+                keys.sort();
+                format!("<{}>", keys.join("|"))
+            }
+            Type::Mut(element) => format!("mut {}", element.sort_key()),
+            Type::Struct(fields) => {
+                let mut keys: Box<[String]> = fields
+                    .0
+                    .iter()
+                    .map(|(name, field)| format!("{name}:{}", field.sort_key()))
+                    .collect();
+                keys.sort();
+                format!("struct{{{}}}", keys.join(","))
+            }
+            other => other.to_string(),
+        }
+    }
+
     /// Flatten self to single tuple
     pub fn flatten_tuple(self) -> Option<Arc<[Type]>> {
         match self {
